@@ -98,7 +98,11 @@ def run(ctx):
         skip = rng.choice([0, 0, 5])
         lens = [rng.choice([1, 2, 7, 255, 1024, 1017, 4090]) for _ in range(rng.randint(1, 10))]
         data = _mk_stream(rng, packets, lens, skip)
-        oscases.append((data, rng.choice([0, 0, 7, 4096]), skip, rng.randrange(len(data))))
+        bounds = [0]
+        for ln_ in lens:
+            bounds.append(bounds[-1] + skip + 6 + ln_)
+        # a writer that flushed after a whole packet (every other case), or anywhere
+        oscases.append((data, rng.choice([0, 0, 7, 4096]), skip, rng.choice(bounds[1:]) if i % 2 == 0 else rng.randrange(len(data))))
     fc.os_sources_section(ctx, "C02", oscases)
 
     # > 20 MB: the buffer-trim branch (thorough: also via socket and file with small reads)
